@@ -2194,6 +2194,101 @@ static std::vector<QuadCase> build_quad_cases(ElossWorld& W, bool thorough)
                     Q.R.tag("quad:urban-stage:ion-single-collision");
                 });
             }
+
+            //// ionisation, fast regime (xs_ion > 8): Gaussian for the collisions in [E0, alpha E0] plus
+            //// individually sampled collisions in (alpha E0, Tmax].  With n3 = xs_ion collisions of
+            //// density ~ 1/E^2 on [E0, Tmax], R = Tmax/E0 and alpha = (n3 + 8) R / (8 R + n3) (PHYS332
+            //// Eq. 25 with the class's max_collisions = 8):
+            ////   number above alpha E0:  Poisson(n3 (R - alpha) / (alpha (R - 1)))
+            ////   mean loss below:        n3 R E0 ln(alpha) / (R - 1)        (both by integrating 1/E^2)
+            //// Judged: the law of the number of collisions above alpha E0, and the MEDIAN of the Gaussian part (a normal
+            //// truncated symmetrically to (0, 2 mean] has median = mean whatever its width; the width
+            //// formula itself is not judged).
+            std::vector<std::pair<US, char const*>> ifs = {{{1, 1e-2, 1.0, 1e3, 0.99}, "Ar,loss=0.01,Tmax=1"},
+                                                           {{0, 0.1, 1e-3, 1e3, 0.99}, "H2,loss=0.1,Tmax=0.001"},
+                                                           {{2, 1e-3, 5e-4, 1e3, 0.99}, "Pb,loss=1e-3,Tmax=5e-4(no excitation)"}};
+            for (auto io : ifs)
+            {
+                US u = io.first;
+                auto ref = [](EnergyLossUrbanDistribution const& d, ld* lam_up, ld* mean_low) {
+                    ld const e0 = 1e-5L, R = ld(d.max_energy_) / e0, n3 = d.xs_ion_;
+                    ld const alpha = (n3 + 8) * R / (8 * R + n3);
+                    *lam_up = n3 * (R - alpha) / (alpha * (R - 1));
+                    *mean_low = n3 * R * e0 * logl(alpha) / (R - 1);
+                };
+                add("eloss-urban", fmt("stage:ionisation:fast:%s:number of collisions above alpha E0", io.second), [=](Quad& Q) {
+                    EnergyLossUrbanDistribution d = make(u);
+                    if (!(d.xs_ion_ > 8))
+                    {
+                        Q.R.harness_error(fmt("%s: xs_ion=%g is not in the fast regime", Q.cid.c_str(), d.xs_ion_));
+                        return;
+                    }
+                    ld lam, mlow;
+                    ref(d, &lam, &mlow);
+                    Q.R.note("info:" + Q.cid, fmt("xs_ion=%g: Poisson mean above alpha E0 = %Lg, Gaussian mean = %Lg", d.xs_ion_, lam, mlow));
+                    // canonicals 1,2 (the normal pair) fixed at 1/2: Box-Muller gives z in {0, -1.18}, accepted
+                    // at the first attempt.  Then the direct Poisson method draws n + 1 uniforms and every
+                    // collision one more: 2 + (n + 1) + n canonicals in total, i.e. the number n of collisions
+                    // above alpha E0 is read off the draw count.  Lattice on the first two Poisson uniforms
+                    // ({n <= k} is decreasing in each), the rest from the tail - as for the Poisson cases.
+                    Lattice L4{{0, 0, h, h}};
+                    bool first_rejected = false;
+                    Q.discrete(L4, {0, 0, 1, 1},
+                               [&](Eng& e) {
+                                   double x = d.sample_ionization_loss(e);
+                                   if (!(x > 0))
+                                       first_rejected = true;
+                                   uint64_t const c = e.canonicals();
+                                   return (c >= 3 && (c - 3) % 2 == 0) ? double((c - 3) / 2) : 1e6;
+                               },
+                               [=](long long k) { return double(poisson_cdf(lam, k)); });
+                    if (first_rejected)
+                        Q.R.violation("quad:eloss-urban:fast-ionisation-loss-not-positive", Q.cid,
+                                      "the Gaussian part lies in (0, 2 mean]: a non-positive ionisation loss is outside the support");
+                    Q.R.tag("quad:urban-stage:ion-fast:poisson-part");
+                });
+                add("eloss-urban", fmt("stage:ionisation:fast:%s:median of the Gaussian part", io.second), [=](Quad& Q) {
+                    EnergyLossUrbanDistribution d = make(u);
+                    ld lam, mlow;
+                    ref(d, &lam, &mlow);
+                    // lattice on the normal pair; third canonical 2^-32 exactly: exp(lam) 2^-32 < 1 (lam < 8),
+                    // so no collision above alpha E0 and the sample IS the Gaussian part.  Points whose first
+                    // normal is rejected (more than 3 canonicals) are left out: the accepted set and {x <= mean}
+                    // are both unions of Box-Muller cells, error <= 2 L / p_accept as for the conditional CDFs.
+                    uint64_t const N = L2.size();
+                    uint64_t acc = 0, below = 0;
+                    std::vector<uint32_t> sc(3);
+                    for (uint64_t idx = 0; idx < N; ++idx)
+                    {
+                        L2.script(idx, sc);
+                        sc[2] = 0u;
+                        Eng e({sc[0], sc[1], 0x00000001u}, mix64(Q.seed() + idx), 0u);
+                        double x = d.sample_ionization_loss(e);
+                        if (e.canonicals() != 3)
+                            continue;
+                        ++acc;
+                        if (x <= double(mlow))
+                            ++below;
+                    }
+                    if (acc < N / 2)
+                    {
+                        // declared configurations: sd < mean/4, first-attempt acceptance > 0.9999
+                        Q.R.violation("quad:eloss-urban:fast-ionisation-draw-pattern", Q.cid,
+                                      fmt("only %llu of %llu lattice points consumed exactly 3 canonicals (normal pair accepted at "
+                                          "the first attempt + one Poisson uniform <= exp(-lambda), lambda = %Lg < 8)",
+                                          (unsigned long long)acc, (unsigned long long)N, lam));
+                        return;
+                    }
+                    double const pacc = double(acc) / N;
+                    Q.judge("P(x <= analytic mean | first attempt accepted) vs 1/2", std::fabs(double(below) / acc - 0.5),
+                            L2.lterm(bm2), 0, acc, 2.0 / pacc);
+                    Q.R.note("info:" + Q.cid, fmt("Gaussian mean (analytic) = %Lg, accepted %llu of %llu, below %llu", mlow,
+                                                  (unsigned long long)acc, (unsigned long long)N, (unsigned long long)below));
+                    Q.R.count("evaluations", N);
+                    Q.R.tag("quad:urban-stage:ion-fast:gaussian-median");
+                    Q.R.nontrivial(vf::hash_str(Q.cid));
+                });
+            }
         }
     }
     return C;
